@@ -188,6 +188,63 @@ def explore_triple(args):
           'distinct_serial_outcomes': len(set(ser.values())), 'bad': bad, 'truncated': n >= limit}
 
 
+def local_servicer_stage(c):
+  """Clients that name no endpoint share ONE in-process servicer: every lock the property rests on lives inside
+  that object, so threads that get different servicers are not serialised at all.  N threads released together ask
+  the client library for the local servicer while its constructor is held open (a rendezvous inside
+  VizierServicer.__init__: two constructors running at once both pass it), from a cold cache and again later."""
+  import threading
+  from vizier._src.service import vizier_client, vizier_service
+  saved_kwargs = dict(vizier_client.environment_variables.servicer_kwargs)
+  saved_endpoint = vizier_client.environment_variables.server_endpoint
+  real_cls = vizier_service.VizierServicer
+  built = []
+  rendezvous = threading.Barrier(2)
+
+  class Slow(real_cls):
+    def __init__(self, *a, **kw):
+      try:
+        rendezvous.wait(timeout=0.6)      # passes at once when a second constructor runs concurrently
+      except threading.BrokenBarrierError:
+        rendezvous.reset()
+      super().__init__(*a, **kw)
+      built.append(self)
+  try:
+    vizier_client.environment_variables.servicer_kwargs = {'database_url': None}
+    vizier_client.environment_variables.server_endpoint = vizier_client.constants.NO_ENDPOINT
+    vizier_service.VizierServicer = Slow
+    for rnd in ('cold cache', 'warm cache'):
+      if rnd == 'cold cache':
+        vizier_client._create_local_vizier_servicer.cache_clear()   # pylint: disable=protected-access
+      got, errs = [], []
+      start = threading.Barrier(3)
+
+      def worker():
+        try:
+          start.wait(timeout=5)
+          got.append(vizier_client.create_vizier_servicer_or_stub())
+        except Exception as e:  # pylint: disable=broad-except
+          errs.append('%s: %s' % (type(e).__name__, e))
+      ths = [threading.Thread(target=worker) for _ in range(3)]
+      for t in ths:
+        t.start()
+      for t in ths:
+        t.join(20)
+      c.traces += 1
+      c.count(1, ('local-servicer', rnd), kind='local-servicer:' + rnd)
+      distinct = len(set(id(x) for x in got))
+      if errs or distinct != 1:
+        c.prop_fail('local-servicer-not-shared',
+                    'three threads of one process asking the client library for the local servicer (%s) got %d distinct servicer objects (%d constructed, errors %s): their service locks and datastores are not shared, concurrent calls are not serialised at all' % (
+                        rnd, distinct, len(built), errs[:2]),
+                    {'round': rnd, 'distinct_servicers': distinct, 'constructed': len(built), 'errors': errs})
+  finally:
+    vizier_service.VizierServicer = real_cls
+    vizier_client.environment_variables.servicer_kwargs = saved_kwargs
+    vizier_client.environment_variables.server_endpoint = saved_endpoint
+    vizier_client._create_local_vizier_servicer.cache_clear()   # pylint: disable=protected-access
+
+
 def pairs_for(tier, rng):
   names = list(REQS)
   allpairs = [(a, b) for i, a in enumerate(names) for b in names[i:]]
@@ -213,6 +270,7 @@ def run(c):
                    not unknown and not missing, '; '.join(unknown + ['missing ' + m for m in missing]))
   c.coverage_extra['servicer_shape'] = {k: [[cname, list(locks)] for cname, locks in v] for k, v in shape.items()}
   c.proof_stage()
+  local_servicer_stage(c)
   tasks = pairs_for(c.tier, c.rng)
   backends = ['ram'] if c.tier == 'quick' else ['ram', 'sqlmem']
   limit = 1200 if c.tier == 'quick' else 12000
